@@ -13,6 +13,7 @@ C18 — reusable streams re-materialise identically, whatever happened before.
 -/
 import ShpanVerif.Props.PipeStatements
 import ShpanVerif.Props.C01
+import ShpanVerif.Props.C04
 import ShpanVerif.Proofs.PipeShapeFacts
 
 namespace ShpanVerif.Props.C18
@@ -70,5 +71,21 @@ theorem C18_from_C04 (h4 : C04_statement) : C18_statement := by
   have hre' : Reusable p' := reusable_of_shape hs hre
   have hev' : Spec.eval p' = some l := by rw [eval_eq_of_shape hs]; exact hev
   exact h4 fuel c p' l w (ready_of_closed_reusable p' hc' hre') hev' hclean
+
+/-- **C18** (unconditional): C04 is proved. -/
+theorem C18_rematerialise : C18_statement := C18_from_C04 C04.C04_pipe
+
+/-- In the property's words, for the two-step history that exposed the merge look-ahead defect (D8):
+after a materialisation that stopped after one element, the merged stream still delivers everything. -/
+example :
+    let p : Pipe := .merge (.cons (.src 0 [1, 3] 0) (.cons (.src 1 [2, 4] 0) .nil)) 0 none
+    ∀ p', afterHistory p [{ fuel := 100, consumer := .collect, take := some 1, world := {} }] = some p' →
+      ∀ fuel, (consume fuel .collect p' {}).1 = .oof ∨
+        (consume fuel .collect p' {}).1 = .ok [.int 1, .int 2, .int 3, .int 4] := by
+  intro p p' h fuel
+  exact C18_rematerialise p p' [.int 1, .int 2, .int 3, .int 4] _ fuel .collect {}
+    (by simp [p, Reusable, ReusableList]) (by simp [p, Closed, ClosedList]) (by decide)
+    (by simp [p, Spec.eval, Spec.evalList, Spec.sortedBy, V.key, List.mergeSort, List.MergeSort.Internal.splitInTwo])
+    (by intro r hr; simp at hr; subst hr; exact ⟨rfl, fun _ _ => rfl⟩) h ⟨rfl, rfl⟩
 
 end ShpanVerif.Props.C18
